@@ -33,6 +33,8 @@ func checkC01(c *Ctx) {
 	ruleNoSharedTransformer(c, "C01.j")
 	c.rule("C01.k", "the wire encoder never re-encodes a string rune by rune (bytes that are not valid UTF-8 survive)", 1)
 	ruleNoRuneReencoding(c, "C01.k")
+	c.rule("C01.l", "no direct Read discards its byte count (a literal is read to completion)", 1)
+	ruleReadCountChecked(c, "C01.l", "internal/imapwire", "imapserver", "imapclient")
 	c.rule("C01.i", "quoted-string scanner: the closing-quote and escape tests see unescaped bytes only", 2)
 	ruleQuotedScanner(c, "C01.i")
 	if list := c.P.Func("internal/imapwire", "Decoder", "List"); list != nil {
